@@ -93,6 +93,13 @@ def main(argv=None):
         bounded = [b for b in bounded if a.only in b["name"]]
     _OPTS.update(task_timeout=prop.get("task_timeout", 300 if a.tier == "quick" else 1200),
                  keep_smt=1, bounded=bounded, seed=seed, tier=a.tier)
+    if a.tier == "thorough":
+        # thorough: 4x the deterministic solver budgets (set before the workers fork), thorough-only tasks,
+        # the large bounds of the bounded stand-ins
+        from . import ctx as _ctx_mod
+        _ctx_mod.OB_RLIMIT *= 4
+        _ctx_mod.FEAS_RLIMIT *= 4
+        _ctx_mod.OB_TIMEOUT_MS *= 4
     results = [None] * len(tasks)
     bres = [None] * len(bounded)
     ctxmp = mp.get_context("fork")
